@@ -27,6 +27,7 @@ PresRecOf(cc) ==
     [alg |-> IF cc.algop = "other" THEN "HS512" ELSE Signed.alg,
      fields |-> ApplyFieldOp(cc.fieldop, SetToSeq(Signed.fields)),
      value |-> CASE cc.valueop = "splice" -> [Signed.value EXCEPT !.payload = Payload(Signed.alg, Values([NormC(cc.orig) EXCEPT !.command = "another step"], Fn(cc.penv)))]
+                 [] cc.valueop = "attach" -> [Signed.value EXCEPT !.form = "attached"]      \* the same signature with the ORIGINAL payload spliced into the value
                  [] cc.valueop = "bitflip" -> [Signed.value EXCEPT !.payload = Payload("garbage", <<>>)]
                  [] OTHER -> Signed.value]
 KeySetOf(cc) == CASE cc.keyop = "signer" -> {Key(cc)} [] cc.keyop = "signer_plus" -> {Key(cc), OtherSame(Key(cc)), OtherAlg(Key(cc))}
